@@ -232,6 +232,45 @@ theorem checkChunks_spec {S : List (List RE)} {Sl : List (List RE)}
       · exact checkChunk_spec h.1 r e
       · exact ih h.2 r e
 
+/-! Block-wise checking: the kernel's evaluation caches live as long as one `decide +kernel`, so a
+    certificate with thousands of states is checked in blocks of 8 chunks (256 states), one theorem
+    per block, and the blocks are combined by `checkChunks_blocks`. -/
+
+theorem checkChunks_split (S : List (List RE)) (n : Nat) :
+    ∀ (L : List (List RE)) (T : List (List (List Nat))),
+      checkChunks S (L.take n) (T.take n) = true → checkChunks S (L.drop n) (T.drop n) = true →
+      checkChunks S L T = true := by
+  induction n with
+  | zero => intro L T _ h2; simpa using h2
+  | succ n ih =>
+    intro L T h1 h2
+    cases L with
+    | nil =>
+      cases T with
+      | nil => rfl
+      | cons y ys => simp [checkChunks] at h1
+    | cons x xs =>
+      cases T with
+      | nil => simp [checkChunks] at h1
+      | cons y ys =>
+        simp only [List.take_succ_cons, List.drop_succ_cons, checkChunks, Bool.and_eq_true] at h1 h2 ⊢
+        exact ⟨h1.1, ih xs ys h1.2 h2⟩
+
+def dropB {α : Type} : Nat → List α → List α
+  | 0, l => l
+  | k + 1, l => dropB k (l.drop 8)
+
+theorem checkChunks_blocks (S : List (List RE)) (nb : Nat) :
+    ∀ (L : List (List RE)) (T : List (List (List Nat))),
+      (∀ k, k < nb → checkChunks S ((dropB k L).take 8) ((dropB k T).take 8) = true) →
+      checkChunks S (dropB nb L) (dropB nb T) = true → checkChunks S L T = true := by
+  induction nb with
+  | zero => intro L T _ h; exact h
+  | succ nb ih =>
+    intro L T h hend
+    apply checkChunks_split S 8 L T (h 0 (Nat.succ_pos _))
+    exact ih (L.drop 8) (T.drop 8) (fun k hk => h (k + 1) (Nat.succ_lt_succ hk)) hend
+
 /-- `S`: states in chunks, `tbl`: one row per state, chunked like `S` -/
 def checkCert (S : List (List RE)) (tbl : List (List (List Nat))) : Bool := checkChunks S S tbl
 
@@ -268,6 +307,17 @@ theorem empty_of_cert {r : RE} {S : List (List RE)} {tbl : List (List (List Nat)
     subst this
     exact checkCert_sound hc (by simp)
   · cases h0
+
+/-- the same from block-wise facts -/
+theorem empty_of_blocks {r : RE} {S : List (List RE)} {tbl : List (List (List Nat))} (nb : Nat)
+    (h0 : (match S with
+           | (s0 :: _) :: _ => RE.beq r s0
+           | _ => false) = true)
+    (hb : ∀ k, k < nb → checkChunks S ((dropB k S).take 8) ((dropB k tbl).take 8) = true)
+    (hend : checkChunks S (dropB nb S) (dropB nb tbl) = true) : ∀ w, ¬ Lang r w := by
+  apply empty_of_cert (S := S) (tbl := tbl)
+  simp only [checkCertFor, Bool.and_eq_true]
+  exact ⟨h0, checkChunks_blocks S nb S tbl hb hend⟩
 
 /-- inclusion `A ⊆ B` from emptiness of `A ∩ ¬B` -/
 theorem incl_of_empty {a b : RE} (h : ∀ w, ¬ Lang (RE.and a (RE.not b)) w) :
